@@ -1,6 +1,8 @@
 import SoundeventModel.Ops.Common
 import SoundeventModel.Metrics
 import SoundeventModel.Detection
+import SoundeventModel.MetricsTags
+import SoundeventModel.Ops.C19
 namespace SE.Ops.C09
 open Lean SE SE.Metrics SE.Detection
 
@@ -107,6 +109,88 @@ def runTask (a : Json) : Except String (Except Err EvalOut) := do
   | "sound_event_detection" => return soundEventDetection C (← getDetPreds ps) (← getSEAnns as)
   | t => .error s!"unknown task {t}"
 
+/-! ### tags as content (follow-up "pools, histories")
+
+  A request carries the tag pool — real tags: a term with all its fields and a value, as the harness reads them
+  from the objects it hands to the code, parsed by C19's `getTag` — and the vocabulary as positions in the pool;
+  clips and sound events name their tags by pool position.  The class indices are computed here, by the model of
+  the encoder (C19's `Encoding.encode`), never by the harness and never by the library. -/
+
+structure TagReq where
+  pool : Array Encoding.Tag
+  vocab : List Encoding.Tag
+
+def TagReq.tag (c : TagReq) (j : Json) : Except String Encoding.Tag := do
+  let i ← j.getNat?
+  match c.pool[i]? with
+  | some t => return t
+  | none => .error s!"tag {i} is not in the pool"
+
+def getTagReq (a : Json) : Except String TagReq := do
+  let pool := (← (← fldArr a "pool").mapM C19.getTag).toArray
+  let c0 : TagReq := { pool := pool, vocab := [] }
+  let vocab ← (← fldArr a "vocab").mapM c0.tag
+  return { pool := pool, vocab := vocab }
+
+def TagReq.tags (c : TagReq) (j : Json) : Except String (List Encoding.Tag) := do (← getArr j).mapM c.tag
+
+/-- predicted tags `[[pool position, score]]`; the score is the binary32 value the array stores (so `cast` is
+    the identity in the ops) -/
+def TagReq.predTags (c : TagReq) (j : Json) : Except String (List Encoding.PredictedTag) := do
+  (← getArr j).mapM (fun p => do
+    match ← getArr p with
+    | [i, s] => return { tag := ← c.tag i, score := ← getRat s }
+    | _ => .error "predicted tag: expected [pool position, score]")
+
+def TagReq.tPred (c : TagReq) (j : Json) : Except String TPred := do
+  return { id := ← fldNat j "id", hasGeom := ← fldBool j "geom", tags := ← c.predTags (← fld j "tags") }
+
+def TagReq.tAnn (c : TagReq) (j : Json) : Except String TAnn := do
+  return { id := ← fldNat j "id", hasGeom := ← fldBool j "geom", tags := ← c.tags (← fld j "tags") }
+
+def TagReq.ccPreds (c : TagReq) (j : Json) : Except String (List (Nat × CCPredT)) := do
+  (← getArr j).mapM (fun x => do
+    return (← fldNat x "clip", ⟨← c.predTags (optFld x "tags" (arrJ [])), (← getArr (optFld x "events" (arrJ []))).length⟩))
+
+def TagReq.ccAnns (c : TagReq) (j : Json) : Except String (List (Nat × CCAnnT)) := do
+  (← getArr j).mapM (fun x => do
+    return (← fldNat x "clip", ⟨← c.tags (optFld x "tags" (arrJ [])), (← getArr (optFld x "events" (arrJ []))).length⟩))
+
+def TagReq.sePreds (c : TagReq) (j : Json) : Except String (List (Nat × List TPred)) := do
+  (← getArr j).mapM (fun x => do
+    return (← fldNat x "clip", ← (← getArr (optFld x "events" (arrJ []))).mapM c.tPred))
+
+def TagReq.seAnns (c : TagReq) (j : Json) : Except String (List (Nat × List TAnn)) := do
+  (← getArr j).mapM (fun x => do
+    return (← fldNat x "clip", ← (← getArr (optFld x "events" (arrJ []))).mapM c.tAnn))
+
+def TagReq.detPreds (c : TagReq) (j : Json) : Except String (List (Nat × PredClipT)) := do
+  (← getArr j).mapM (fun x => do
+    return (← fldNat x "clip",
+      { events := ← (← getArr (optFld x "events" (arrJ []))).mapM c.tPred,
+        matcher := ← getMatcher (optFld x "matcher" (arrJ [])) }))
+
+/-- one of the four task drivers over real tags -/
+def runTaskT (a : Json) : Except String (Except Err EvalOut) := do
+  let c ← getTagReq a
+  let ps ← fld a "predictions"
+  let as ← fld a "annotations"
+  match ← fldStr a "task" with
+  | "clip_classification" => return clipClassificationT id c.vocab (← c.ccPreds ps) (← c.ccAnns as)
+  | "clip_multilabel_classification" =>
+    -- clip scores: a parameter when the request carries them, otherwise the closed form over the model's encodings
+    match fldOpt a "clip_scores" with
+    | some j => return clipMultilabelT id c.vocab (← c.ccPreds ps) (← c.ccAnns as) (← getRatList j)
+    | none => return clipMultilabelClosedT id c.vocab (← c.ccPreds ps) (← c.ccAnns as)
+  | "sound_event_classification" => return soundEventClassificationT id c.vocab (← c.sePreds ps) (← c.seAnns as)
+  | "sound_event_detection" => return soundEventDetectionT id c.vocab (← c.detPreds ps) (← c.seAnns as)
+  | t => .error s!"unknown task {t}"
+
+def itemJ (it : Item) (ml : MLItem) : Json :=
+  Json.mkObj [("y", optNatJ it.y), ("row", ratsJ it.row), ("truth", arrJ (ml.truth.map boolJ))]
+
+def optRatJ : Option Rat → Json := optJ ratJ
+
 def taskOfName : String → Option Task
   | "clip_classification" => some .clipClassification
   | "clip_multilabel_classification" => some .clipMultilabel
@@ -117,6 +201,28 @@ def taskOfName : String → Option Task
 def handle (op : String) (a : Json) : Except String Json := do
   match op with
   | "task" => return exceptJ evalJ (← runTask a)
+  | "task_tags" => return exceptJ evalJ (← runTaskT a)
+  | "encode_items" =>
+    -- the arrays `evaluation/encoding.py` produces for (true tags, predicted tags) pairs: C19's
+    -- `classificationEncoding` / `multilabelEncoding` / `predictionEncoding` themselves (theorem C09_tags_bridge:
+    -- these are the arrays the task drivers compute with)
+    let c ← getTagReq a
+    let out ← (← fldArr a "items").mapM (fun p => do
+      let truth ← c.tags (← fld p "ann")
+      let ps ← c.predTags (← fld p "pred")
+      return itemJ (itemOfTags id c.vocab truth ps) (mlItemOfTags id c.vocab truth ps))
+    return arrJ out
+  | "encode_pool" =>
+    -- the model's encoder on every tag of the pool; is the vocabulary free of repeated (equal) tags?
+    let c ← getTagReq a
+    return Json.mkObj [("enc", arrJ (c.pool.toList.map (fun t => optJ natJ (Encoding.encode c.vocab t)))),
+                       ("nodup", boolJ (decide c.vocab.Nodup))]
+  | "overall_score" =>
+    -- "scores aggregate as means": the evaluation score over clip scores (`null` = a clip without score)
+    let scores ← (← fldArr a "scores").mapM (fun j => match j with
+      | .null => pure (none : Option Rat)
+      | j => do pure (some (← getRat j)))
+    return ratJ (overallScore (scores.map (fun s => ({ clip := 0, metrics := [], score := s, mts := [] } : ClipOut))))
   | "metric" =>
     -- one function of evaluation/metrics.py on encoded arrays
     let fn ← fldStr a "fn"
